@@ -206,13 +206,15 @@ fn watchdog(sh: usize) {
             if wall <= limit {
                 continue;
             }
-            // A hang inside a poll burns CPU on the owning thread. A thread that is merely starved
-            // (machine under load, page-fault stalls) has used little CPU since `enter`: it is given
-            // 8x the wall limit before the statement is declared hung.
+            // A hang inside a poll burns CPU on the owning thread: the limit is applied to the CPU time of that
+            // thread, which does not depend on the load of the machine. A thread that is merely starved
+            // (machine under load, page-fault stalls) has used little CPU since `enter`; a thread blocked for
+            // good (deadlock) uses none: those are given 40x the limit in wall time before the statement is
+            // declared hung.
             let clk = CPU_CLOCK[slot].load(Ordering::SeqCst);
             let burned = if clk >= 0 { cpu_ms(clk as libc::clockid_t).map(|c| c.saturating_sub(CPU_AT_ENTER[slot].load(Ordering::SeqCst))) } else { None };
-            let busy = burned.map(|b| b * 2 > limit).unwrap_or(true);
-            if busy || wall > limit * 8 {
+            let busy = burned.map(|b| b > limit).unwrap_or(true);
+            if busy || wall > limit * 40 {
                 record_skip(&sql, hash, "hang", &tag);
                 eprintln!("verif-guard: statement exceeded the {limit} ms wall limit, restarting without it: {}", crate::infra::one_line(&sql, 200));
                 std::process::exit(3);
